@@ -600,7 +600,11 @@ func (d *Driver) judgeC04() {
 			var g *Op
 			for _, op := range d.h.Ops {
 				if op.Inst == a.Inst && op.Gen == a.Gen && op.Kind == "get" && strings.HasPrefix(op.Caller, "validateToken") && op.SInvoke >= a.SInv && op.TRet >= 0 && op.SRet <= a.SRet {
+					// the first such read: the call issues its read at once; with a slow OnDemote the
+					// call returns long after, and later reads (of the validation loop, of other
+					// validation calls) fall into its window as well
 					g = op
+					break
 				}
 			}
 			if g != nil {
